@@ -216,7 +216,7 @@ class SymArray:
     def __setitem__(self, key, value):
         # masked store of a scalar under a symbolic mask of the array's own shape: merge with
         # if-then-else instead of forking
-        if isinstance(key, SymArray) and key.size and key.shape == self.a.shape and all(e.kind == "B" for e in key.a.flat) and not isinstance(value, (SymArray, _np.ndarray, list, tuple)) \
+        if isinstance(key, SymArray) and key.size and key.shape == self.a.shape and all(e.kind == "B" for e in key.a.flat) and not isinstance(value, (SymArray, _np.ndarray, list, tuple)) and self.kind != "int" \
                 and not key.all_concrete():
             v = SV.of(value)
             if not (v.t is None and isinstance(v.c, float)):
